@@ -432,7 +432,7 @@ def run(tier):
     ups_res = run_impl([json.dumps(u) for u in ups], 'expect') if ups else []
     ups_bad = []
     for u, r in zip(ups, ups_res):
-        got = r['got']
+        got = r.get('got') or ('ERR:internal:' + str(r.get('err'))[:120])
         if u['exp'] is None:
             ok = not got.startswith('ERR:internal')
         elif u['exp'] == 'ERR':
